@@ -1786,13 +1786,113 @@ Proof.
   destruct Hin as [E|Hin]; [inversion E; subst; exact H1|]. eapply IH; eauto.
 Qed.
 
+(* ---- folded (literal-only) container constants: `cembed` writes them out as the literal *)
+Fixpoint csize (c : const) : nat :=
+  match c with
+  | CArr l => S (list_sum (map csize l))
+  | CMap m => S (list_sum (map (fun kv : mkey * const => csize (snd kv)) m))
+  | _ => 1
+  end.
+
+Lemma in_list_sum : forall {A} (f : A -> nat) l x, In x l -> f x <= list_sum (map f l).
+Proof.
+  intros A f. induction l as [|y r IH]; intros x H; [cbn in H; tauto|].
+  cbn [map list_sum fold_right]. unfold list_sum in IH. destruct H as [->|H]; [lia|]. specialize (IH x H). lia.
+Qed.
+
+Lemma mkey_eqb_sym : forall a b, mkey_eqb a b = mkey_eqb b a.
+Proof.
+  destruct a as [s|z|x], b as [s'|z'|x']; cbn [mkey_eqb]; try reflexivity.
+  - destruct (str_eqb s s') eqn:E1; destruct (str_eqb s' s) eqn:E2; try reflexivity.
+    + apply str_eqb_eq in E1. subst. rewrite (proj2 (str_eqb_eq s' s') eq_refl) in E2. discriminate.
+    + apply str_eqb_eq in E2. subst. rewrite (proj2 (str_eqb_eq s s) eq_refl) in E1. discriminate.
+  - apply Z.eqb_sym.
+  - destruct x, x'; reflexivity.
+Qed.
+
+Lemma insert_fresh : forall k v acc,
+  existsb (fun a => mkey_eqb a k) (map fst acc) = false -> cmap_insert k v acc = acc ++ [(k, v)].
+Proof.
+  intros k v. induction acc as [|[k' v'] r IH]; cbn [map fst existsb cmap_insert app]; intros H; [reflexivity|].
+  apply orb_false_elim in H. destruct H as [H1 H2]. rewrite mkey_eqb_sym, H1. rewrite IH by exact H2. reflexivity.
+Qed.
+
+Lemma keys_nodup_app_cons : forall A k R, keys_nodup (A ++ k :: R) = true ->
+  existsb (fun a => mkey_eqb a k) A = false.
+Proof.
+  induction A as [|a A' IH]; intros k R H; [reflexivity|].
+  cbn [app keys_nodup] in H. apply andb_prop in H. destruct H as [H1 H2].
+  cbn [existsb]. rewrite (IH k R H2), orb_false_r.
+  apply negb_true_iff in H1. rewrite existsb_app in H1. apply orb_false_elim in H1. destruct H1 as [_ H1].
+  cbn [existsb] in H1. apply orb_false_elim in H1. destruct H1 as [H1 _]. exact H1.
+Qed.
+
+Definition centry (kv : mkey * const) : option mkey * expr := match kv with (k, x) => (Some k, EConst x) end.
+
+Lemma as_const_entries_fold : forall m acc,
+  keys_nodup (map fst acc ++ map fst m) = true ->
+  fold_left (fun acc en =>
+    match acc, en with
+    | Some m, (Some k, EConst c) => Some (cmap_insert k c m)
+    | _, _ => None
+    end) (map centry m) (Some acc) = Some (acc ++ m).
+Proof.
+  induction m as [|[k x] r IH]; intros acc H; cbn [map fold_left centry].
+  - rewrite app_nil_r. reflexivity.
+  - cbn [map fst] in H.
+    rewrite (insert_fresh k x acc (keys_nodup_app_cons _ _ _ H)).
+    rewrite IH.
+    + rewrite <- app_assoc. reflexivity.
+    + rewrite map_app. cbn [map fst]. rewrite <- app_assoc. exact H.
+Qed.
+
+Lemma as_consts_consts : forall l, as_consts (map (fun x : const => (false, EConst x)) l) = Some l.
+Proof.
+  induction l as [|x r IH]; [reflexivity|].
+  unfold as_consts in *. cbn [map fold_right]. rewrite IH. reflexivity.
+Qed.
+
+Lemma cembed_ok_n : forall n c, csize c <= n -> const_ok c = true ->
+  desugar (cembed c) = EConst c /\ printable (cembed c) = true.
+Proof.
+  induction n as [|n IH]; intros c Hs Hok.
+  - destruct c; cbn [csize] in Hs; lia.
+  - destruct c as [z|d|s|b| |l|m]; try (split; reflexivity).
+    + (* CArr *)
+      cbn [csize] in Hs. cbn [const_ok] in Hok. rewrite forallb_forall in Hok.
+      assert (Hx : forall x, In x l -> desugar (cembed x) = EConst x /\ printable (cembed x) = true).
+      { intros x Hin. apply IH; [pose proof (in_list_sum csize l x Hin); lia|auto]. }
+      cbn [cembed desugar printable]. split.
+      * rewrite map_map.
+        rewrite (map_ext_in _ (fun x : const => (false, EConst x))).
+        -- unfold fold_array. rewrite as_consts_consts. reflexivity.
+        -- intros x Hin. rewrite (proj1 (Hx x Hin)). reflexivity.
+      * cbn [andb]. apply forallb_forall. intros [b v] Hin. apply in_map_iff in Hin.
+        destruct Hin as (x & E & Hin). inversion E; subst. apply (Hx x Hin).
+    + (* CMap *)
+      cbn [csize] in Hs. cbn [const_ok] in Hok. apply andb_prop in Hok. destruct Hok as [Hnd Hok].
+      rewrite forallb_forall in Hok.
+      assert (Hx : forall kv, In kv m -> desugar (cembed (snd kv)) = EConst (snd kv) /\ printable (cembed (snd kv)) = true).
+      { intros kv Hin. apply IH; [pose proof (in_list_sum (fun kv : mkey * const => csize (snd kv)) m kv Hin); lia|auto]. }
+      cbn [cembed desugar printable]. split.
+      * rewrite map_map.
+        rewrite (map_ext_in _ centry).
+        -- unfold fold_map, as_const_entries. rewrite (as_const_entries_fold m []); [reflexivity|exact Hnd].
+        -- intros [k x] Hin. pose proof (proj1 (Hx (k, x) Hin)) as E. cbn [snd] in E. rewrite E. reflexivity.
+      * cbn [andb]. apply forallb_forall. intros [ko v] Hin. apply in_map_iff in Hin.
+        destruct Hin as ([k x] & E & Hin). inversion E; subst. exact (proj2 (Hx (k, x) Hin)).
+Qed.
+
+Lemma cembed_ok : forall c, const_ok c = true -> desugar (cembed c) = EConst c.
+Proof. intros c H. apply (cembed_ok_n (csize c) c); auto. Qed.
+
 Lemma desugar_embed_n : forall n e, esize e <= n -> normal e = true -> printable (embed e) = true ->
   desugar (embed e) = e.
 Proof.
   induction n as [|n IH]; intros e Hs Hno Hp.
   - destruct e; cbn [esize] in Hs; lia.
   - destruct e; cbn [esize] in Hs; cbn [embed printable desugar normal] in *; try discriminate.
-    + reflexivity.
+    + apply cembed_ok. exact Hno.
     + reflexivity.
     + apply andb_prop in Hp. destruct Hp as [_ Hp]. rewrite IH; auto. lia.
     + apply andb_prop in Hp. destruct Hp as [Hp Hpi]. apply andb_prop in Hp. destruct Hp as [_ Hp].
